@@ -384,14 +384,17 @@ EXTRA = {
            "handler registered before / after the observer) re-assigns the observed link while the "
            "assignment is being dispatched (all start/new/replacement combinations over the pool); an "
            "observable constant default (Any(obj)) is one of the expressions. Cells for wildcard-governed attributes coming into being under an observer."
-           " Links that are cached properties (root level, registered before the history; values are followed through the property's change events); the wildcard cells add a second, unobserved instance of the class.",
+           " Links that are cached properties (root level, registered before the history; values are followed through the property's change events); the wildcard cells add a second, unobserved instance of the class."
+           ' Cells: a wildcard name first used on a sibling instance (known finding); a lazily created default of a class lacking the observed trait.',
     "C10": " A dynamic Range whose number type follows the instance's bounds is among the default kinds "
            "(floats are compared typed). A cell for a default whose announcement fails."
-           " A default named by another trait (dynamic Range value='dv'): a never-assigned attribute keeps the default it was first read with; small groups of interdependent traits are explored one level deeper; the model's record of first reads is part of the state key.",
+           " A default named by another trait (dynamic Range value='dv'): a never-assigned attribute keeps the default it was first read with; small groups of interdependent traits are explored one level deeper; the model's record of first reads is part of the state key."
+           ' A Union with an explicit mutable default is among the default kinds.',
     "C11": " A variant attaches and detaches the deferring attribute's handlers during the history; a "
            "history ending in a refused write is kept apart from the unchanged state. Kinds with a Property-valued delegate / prototype attribute; all instances are of a subclass that adds nothing."
            ' Two more worlds defer onto List / Dict / Set / Event(Int) targets (in-place mutation on either side, whole-value assignment, validated payloads: handlers of the deferring attribute only ever see values); a target declared by a wildcard only; introspection calls (base_trait, trait, validate_trait, traits, trait_get) are events and must change nothing.'
-           ' The legacy Delegate() spelling with positional options is among the attributes.',
+           ' The legacy Delegate() spelling with positional options is among the attributes.'
+           ' Cells for an attribute assigned in a subclass constructor before the base constructor runs.',
     "C12": " Also a cached property whose value is None most of the time and a dependency holding values "
            "whose == raises AttributeError. A property observed through another property."
            " A subclass's cached getter that builds on the inherited cached getter (nested fill of one cache slot).",
@@ -404,10 +407,12 @@ EXTRA = {
     "C14": " A trait nobody read before the copy, with a default that differs per computation, must read "
            "the same on original and copy; round-tripped definitions are also driven through base_trait, "
            "validate_trait and clone_traits. A prototyped attribute declared before its prototype holder; a list that may not be empty."
-           ' Object-valued prototyped attributes with local overrides must not be shared with the copy; definition scripts read the shadow value after every assignment and use values that need adapting.',
+           ' Object-valued prototyped attributes with local overrides must not be shared with the copy; definition scripts read the shadow value after every assignment and use values that need adapting.'
+           ' Cells: one object that is a trait value and a set / list member stays one object in the copy; a clone taken during construction is initialised.',
     "C16": " One-off cells: a list of extended names registered and removed in every grouping and order "
            "(5 x 5 forms). Cells for Dict links with trait names ending in letters of '_items', for a removal naming an unregistered handler, for handler signatures with 0..4 arguments."
-           " Cells: a re-assigned '.' link is reported to handlers of every signature where observe reports it (from None and from an object), names with blanks around them, one handler under two names sharing a link with one registration removed.",
+           " Cells: a re-assigned '.' link is reported to handlers of every signature where observe reports it (from None and from an object), names with blanks around them, one handler under two names sharing a link with one registration removed."
+           " Cells for decorator-declared registrations (removal by name, bracket group before ':', plain override in a subclass) against an @observe twin.",
     "C17": " Late registration also of a class with the protocol an offer adapts from."
            ' A universe with a mixin in front of the hierarchy plus a virtual base (three single-step candidates).',
     "C18": " Two further cells: a default replaced by post_setattr during the first read; an "
@@ -416,13 +421,15 @@ EXTRA = {
     "C19": " A fifth injected exception is a RuntimeError whose first argument is not a string. Cells for nested containment policies (every push/pop nesting up to depth 3, both handler systems)."
            ' Registrations under extended names (on_trait_change and observe) are faulted operations too.',
     "C09": " One-off cells: registrations removed or added by a handler while it is being called (4 expressions x 5 actions x 1..2 registrations); anytrait observers with traits appearing later; lifetime (a closure cycle through the notifier list, a handler raising to the caller)."
-           " Cells for the function-level observe() with the caller's own dispatcher (bound method, callable instance, partial; counts 1-3 x three expressions), for a link that is a Property, and `del` of an observed link as a graph event.",
+           " Cells for the function-level observe() with the caller's own dispatcher (bound method, callable instance, partial; counts 1-3 x three expressions), for a link that is a Property, and `del` of an observed link as a graph event."
+           ' An expression that is a prefix of another one is in the registration alphabet; cells for container observers that remove themselves while called.',
     "C20": " One-off exhaustive cells: y derived from x by a change handler on one object with x and y "
            "linked in all 15 style combinations (all histories up to length 2 / 3 over 12 assignments); the "
            "style of a link changed by a second sync_trait call without removal. A history ending in a "
            "refused push is kept apart from the unchanged state; thorough uses the reduced menu at its "
            "last level. A list trait whose name contains '_items'."
-           ' Cells in which a partner is collected while a change is being propagated.',
+           ' Cells in which a partner is collected while a change is being propagated.'
+           ' The value a partner refuses is also in the last level of the quick menu.',
 }
 for _k, _v in EXTRA.items():
     CHECKS[_k]["text"] += _v
